@@ -31,6 +31,8 @@ var c13Files = []string{
 	"2021-07-15 (7h!)\nSummary #s\n    1h\n    -1h\n    0m\n    8:00 - 9:00\n    9:00 - ? #s=1\n",
 	// the two date notations mixed within one year (string order differs from calendar order)
 	"2018-03-01\n    1h #m\n\n2018/01/30\n    2h #m=1\n\n2018-02-15\n    3h\n\n2017/12/31\n    4h #m\n\n2018/03/01\n    5h\n",
+	// the ends of the representable calendar (reference dates 0000-01-02 .. 9999-12-30)
+	"0000-01-03\n    1h #e\n\n0000-02-01\n    2h\n\n9999-11-30\n    4h\n\n9999-12-20\n    3h #e=1\n",
 	// descending order
 	"2021-09-10\n    1h #a\n\n2021-09-09\n    2h #a\n\n2021-09-01\n    3h #b\n\n2021-08-31\n#a\n    4h\n",
 }
@@ -67,6 +69,13 @@ func c13DateClauses(recs []sm.Record) []c13Clause {
 		}
 	}
 	sort.Ints(days)
+	var inDomain []int
+	for _, d := range days {
+		if d >= sm.MinDay+1 && d <= sm.MaxDay-1 {
+			inDomain = append(inDomain, d)
+		}
+	}
+	days = inDomain
 	inf := 1 << 30
 	for _, d := range days {
 		out = append(out,
@@ -120,6 +129,9 @@ func c13DateClauses(recs []sm.Record) []c13Clause {
 	for _, r := range recs {
 		for _, off := range []int{0, 1, -1, 7, -7, 31, -31, 92, 366} {
 			n := dayOf(r) + off
+			if n < sm.MinDay+1 || n > sm.MaxDay-1 {
+				continue // reference dates whose neighbours are representable
+			}
 			nd := sm.FromDayNumber(n)
 			now := [3]int{nd.Y, nd.M, nd.D}
 			ws, wu := sm.WeekBounds(n)
@@ -131,6 +143,7 @@ func c13DateClauses(recs []sm.Record) []c13Clause {
 			pq := sm.FromDayNumber(qs - 1)
 			pqs, pqu := sm.QuarterBounds(pq.Y, sm.Quarter(pq.M))
 			pys, pyu := sm.YearBounds(nd.Y - 1)
+			representable := func(lo, hi int) bool { return lo >= sm.MinDay && hi <= sm.MaxDay && lo <= hi }
 			for _, sc := range []struct {
 				flag   string
 				lo, hi int
@@ -141,6 +154,9 @@ func c13DateClauses(recs []sm.Record) []c13Clause {
 				{"--this-quarter", qs, qu}, {"--last-quarter", pqs, pqu},
 				{"--this-year", ys, yu}, {"--last-year", pys, pyu}, {"--lastyear", pys, pyu},
 			} {
+				if !representable(sc.lo, sc.hi) || (nd.Y == 0 && strings.Contains(sc.flag, "last")) {
+					continue // the period (or the previous one) is not fully representable: no verdict
+				}
 				out = append(out, c13Clause{kind: "date", args: []string{sc.flag}, recOK: between(sc.lo, sc.hi), now: now})
 			}
 		}
@@ -351,7 +367,7 @@ func init() {
 	fw.Register(&fw.Check{
 		ID:    "C13",
 		Title: "Filters and sorting select exactly the matching data and never alter it",
-		Rule: "7 base files (<=4 records; calendar edges, duplicate and unsorted dates, tags at record and entry level with and without values, mixed case, every entry kind) x clauses: " +
+		Rule: "8 base files (<=4 records; calendar edges, duplicate and unsorted dates, tags at record and entry level with and without values, mixed case, every entry kind) x clauses: " +
 			"--date/--since/--until/--after/--before for every record date +-1 and thinned pairs, --period for every year/month/quarter/ISO week containing or adjacent to a record date, " +
 			"all 14 relative shortcuts under clocks at every record date + {0,+-1,+-7,+-31,92,366} days, tag queries derived from the file's own tags (bare, other case, value unquoted/quoted/upper-cased/wrong, pairs) plus absent ones, 6 entry-type spellings; " +
 			"all pairs tag x type, date x tag and date x type (dates thinned 1/9) and triples (1/41); each also with --sort asc and desc on a fixed stride; plus ALL 2^13+2^14 date assignments of 13/14 records over two dates for the sort itself. " +
